@@ -105,8 +105,8 @@ class Newport_AG_UC8(QMI_Instrument):
     @rpc_method
     def close(self) -> None:
         _logger.info("Closing connection to %s", self._name)
-        self._transport.close()
         super().close()
+        self._transport.close()
 
     def _write(self, cmd: str) -> None:
         """Send command to instrument and check instrument responds with "OK"."""
